@@ -296,3 +296,22 @@ def op_sig(op):
     if t in ("add_comp", "add_source", "change_comp"):
         return "%s:%s" % (t, op["comp"]["kind"])
     return t
+
+
+def warmup_ops(rng):
+    """A short accepted prefix that makes the system rich enough for every rejection class to be reachable."""
+    pool = list(NAME_POOL)
+    rng.shuffle(pool)
+    src, a, b, l1, l2, s2, mx, ml = pool[:8]
+    ops = [
+        ("start", comp_entry(rng, "Source", src)),
+        {"op": "add_comp", "parent": src, "comp": comp_entry(rng, rng.choice(["Converter", "RLoss", "PSwitch"]), a), "rail": rng.choice(["", "R_" + a])},
+        {"op": "add_comp", "parent": a, "comp": comp_entry(rng, rng.choice(["LinReg", "VLoss", "RLoss"]), b)},
+        {"op": "add_comp", "parent": b, "comp": comp_entry(rng, "PLoad", l1)},
+        {"op": "add_comp", "parent": a, "comp": comp_entry(rng, "ILoad", l2)},
+        {"op": "add_source", "comp": comp_entry(rng, "Source", s2), "rail": rng.choice(["", "R_" + s2])},
+    ]
+    if rng.random() < 0.7:
+        ops.append({"op": "add_comp", "parent": [s2, a] if rng.random() < 0.5 else [a, s2], "comp": comp_entry(rng, "PMux", mx)})
+        ops.append({"op": "add_comp", "parent": mx, "comp": comp_entry(rng, "RLoad", ml)})
+    return ops
